@@ -910,6 +910,23 @@ func trimStack(st string) string {
 	return strings.Join(out, "\n")
 }
 
+// LiveTasks lists every task other than the caller that has not finished.
+func LiveTasks() []string {
+	s := active.Load()
+	if s == nil {
+		return nil
+	}
+	var out []string
+	for _, t := range s.tasks {
+		st := t.state.Load()
+		if st == stDone || st == stDormant || t == s.cur {
+			continue
+		}
+		out = append(out, fmt.Sprintf("%s @ %s", t.name, t.where()))
+	}
+	return out
+}
+
 // TaskDump lists all live tasks with their wait sites (for deadlock reports).
 func (s *Sim) TaskDump() []string {
 	var out []string
